@@ -17,13 +17,26 @@ OS = ["\x0b", "\x0c", "\x1c", "\x1d", "\x1e", "\x85", " ", " "]
 CH = ["x", "é", "中", "1", "-"]
 
 
-def conc_chars(seq, n, fixed=False):
+# per charset: the separators and ordinary characters it can encode (ASCII-compatible charsets only: the field
+# names, colons and line feeds of the block are ASCII bytes whatever the charset)
+PALETTES = {
+    "utf-8": (OS, CH),
+    "latin-1": (["\x0b", "\x0c", "\x1c", "\x1d", "\x1e", "\x85"], ["x", "\u00e9", "\u00ff", "1", "\u00ba"]),
+    "gbk": (["\x0b", "\x0c", "\x1c", "\x1d", "\x1e"], ["\u4e2d", "x", "\u00e9", "\u6587", "-"]),
+    "shift_jis": (["\x0b", "\x0c", "\x1c", "\x1d", "\x1e"], ["\u65e5", "x", "\uff76", "1", "\u672c"]),
+}
+ALT_CHARSETS = ["latin-1", "gbk", "shift_jis"]
+RETRY = {0: None, 1: 1500, 2: 0}
+
+
+def conc_chars(seq, n, fixed=False, charset="utf-8"):
     out = []
+    os_, ch = PALETTES[charset]
     for i, c in enumerate(seq):
         if fixed:
             i = n = 0
-        out.append({"LF": "\n", "CR": "\r", "CO": ":", "SP": " ", "DIGITS": "1500", "data": "data", "event": "event", "id": "id",
-                    "retry": "retry"}.get(c) or (OS[(n + i) % 8] if c == "OS" else CH[(n + i) % 5]))
+        out.append({"LF": "\n", "CR": "\r", "CO": ":", "SP": " ", "DIGITS": "1500", "ZERO": "0", "data": "data", "event": "event", "id": "id",
+                    "retry": "retry"}.get(c) or (os_[(n + i) % len(os_)] if c == "OS" else ch[(n + i) % len(ch)]))
     return "".join(out)
 
 
@@ -57,16 +70,16 @@ def parse_stream(text):
     return events
 
 
-def event_dict(e, n):
+def event_dict(e, n, charset="utf-8"):
     d = {}
     if e["event"]:
-        d["event"] = conc_chars(e["event"], n + 1)
-    if e["id"]:
-        d["id"] = conc_chars(e["id"], n + 2)
+        d["event"] = conc_chars(e["event"], n + 1, charset=charset)
+    if e["hasId"]:
+        d["id"] = conc_chars(e["id"], n + 2, charset=charset)
     if e["retry"]:
-        d["retry"] = 1500
+        d["retry"] = RETRY[e["retry"]]
     if e["hasData"]:
-        d["data"] = conc_chars(e["data"], n)
+        d["data"] = conc_chars(e["data"], n, charset=charset)
     return d
 
 
@@ -93,8 +106,8 @@ def run_model(ctx, wd, name, K, replay_responses):
         if not st["yielded"]:
             continue
         n += 1
-        dicts = [event_dict(e, n + 3 * i) for i, e in enumerate(st["yielded"])]
-        for charset in (("utf-8",) if n % 7 else ("utf-8", "utf-16")[:1]):
+        for charset in ("utf-8", ALT_CHARSETS[n % 3]):
+            dicts = [event_dict(e, n + 3 * i, charset) for i, e in enumerate(st["yielded"])]
             try:
                 blocks = [build_bytes_from_sse(dict(d), charset) for d in dicts]
             except BaseException as e:  # noqa
@@ -102,7 +115,11 @@ def run_model(ctx, wd, name, K, replay_responses):
                 continue
             ctx.count()
             ctx.traces_validated += 1
-            text = b"".join(b + (b": ping\n\n" if (n + i) % 3 == 0 else b"") for i, b in enumerate(blocks)).decode(charset)
+            try:
+                text = b"".join(b + (b": ping\n\n" if (n + i) % 3 == 0 else b"") for i, b in enumerate(blocks)).decode(charset)
+            except UnicodeDecodeError as e:
+                ctx.violation({"events": dicts, "charset": charset}, "a block in " + charset, str(e), "the block cannot be decoded with the response's charset")
+                continue
             got = parse_stream(text)
             want, last = [], ""
             for d in dicts:
@@ -117,20 +134,26 @@ def run_model(ctx, wd, name, K, replay_responses):
             mw = conc_chars(st["wire"], 0, True)
             mp = parse_stream(mw)
             model = [{"data": conc_chars(p["data"], 0, True), "event": conc_chars(p["event"], 0, True), "id": conc_chars(p["id"], 0, True),
-                      "retry": 1500 if p["retry"] else None} for p in st["parsed"]]
+                      "retry": RETRY[p["retry"]]} for p in st["parsed"]]
             if mp != model:
                 raise common.MachineryError("harness parser disagrees with SseWire.tla Parse on %r: %r vs %r" % (mw, mp, model))
-        if replay_responses and len(dicts) >= 1 and n % (11 if ctx.tier == "quick" else 3) == 0:
-            for iface in ("wsgi", "asgi"):
-                from ..recipes import stream
-                resp = (W if iface == "wsgi" else A).SendEventResponse(stream(iface, [dict(d) for d in dicts]), ping_interval=30)
-                r = servers.wsgi_call(resp, servers.Req()) if iface == "wsgi" else servers.asgi_call(resp, servers.Req())
-                ctx.count()
-                hs = dict(r.header_multiset())
-                got = parse_stream(r.body.decode("utf-8")) if r.exc is None else "exc:" + type(r.exc).__name__
-                if got != want or not hs.get("content-type", "").startswith("text/event-stream") or hs.get("cache-control") != "no-cache":
-                    ctx.violation({"events": dicts, "iface": iface}, want, {"decoded": got, "headers": hs},
-                                  "SendEventResponse on %s does not deliver the yielded events" % iface)
+            if replay_responses and len(dicts) >= 1 and n % (11 if ctx.tier == "quick" else 3) == 0:
+                for iface in ("wsgi", "asgi"):
+                    from ..recipes import stream
+                    kw = {} if charset == "utf-8" else {"charset": charset}
+                    resp = (W if iface == "wsgi" else A).SendEventResponse(stream(iface, [dict(d) for d in dicts]), ping_interval=30, **kw)
+                    r = servers.wsgi_call(resp, servers.Req()) if iface == "wsgi" else servers.asgi_call(resp, servers.Req())
+                    ctx.count()
+                    hs = dict(r.header_multiset())
+                    ctype = hs.get("content-type", "")
+                    declared = ctype.partition("charset=")[2].strip() or "utf-8"
+                    try:
+                        got = parse_stream(r.body.decode(declared)) if r.exc is None else "exc:" + type(r.exc).__name__
+                    except (UnicodeDecodeError, LookupError) as e:
+                        got = "undecodable with the declared charset %s: %s" % (declared, e)
+                    if got != want or not ctype.startswith("text/event-stream") or hs.get("cache-control") != "no-cache":
+                        ctx.violation({"events": dicts, "iface": iface, "charset": charset}, want, {"decoded": got, "headers": hs},
+                                      "SendEventResponse on %s does not deliver the yielded events" % iface)
         if any(c in ("OS", "CR") for e in st["yielded"] for c in e["data"]) or any(e["hasData"] and not e["data"] for e in st["yielded"]) \
                 or any(e["data"] and e["data"][-1] in ("LF", "CR") for e in st["yielded"]):
             ctx.nontriv((name, st["yielded"]))
@@ -147,8 +170,9 @@ def run(ctx):
     wd = tlc.workdir_for("c19")
     tlc.sany(wd + "/SseWire.tla")
     full = frozenset({"LF", "CR", "OS", "CO", "SP", "CH"})
-    K1 = dict(MaxData=3 if ctx.tier == "quick" else 4, DataAlphabet=full, NameAlphabet=frozenset({"CH", "CO"}) if ctx.tier == "quick" else frozenset({"CH", "CO", "SP"}), Splitter="wire", MaxEvents=1, MaxPings=1)
-    K2 = dict(MaxData=2, DataAlphabet=frozenset({"LF", "CH", "OS"}), NameAlphabet=frozenset({"CH"}), Splitter="wire", MaxEvents=2 if ctx.tier == "quick" else 3, MaxPings=1)
+    K1 = dict(MaxData=3 if ctx.tier == "quick" else 4, DataAlphabet=full, NameAlphabet=frozenset({"CH", "CO"}) if ctx.tier == "quick" else frozenset({"CH", "CO", "SP"}), Splitter="wire", MaxEvents=1, MaxPings=1, Retries=frozenset({0, 1, 2}))
+    K2 = dict(MaxData=1 if ctx.tier == "quick" else 2, DataAlphabet=frozenset({"LF", "CH", "OS"}), NameAlphabet=frozenset({"CH"}), Splitter="wire", MaxEvents=2 if ctx.tier == "quick" else 3, MaxPings=1,
+              Retries=frozenset({0, 2}))
     ctx.bounds = {"single_events": {k: (sorted(v) if isinstance(v, frozenset) else v) for k, v in K1.items()},
                   "sequences": {k: (sorted(v) if isinstance(v, frozenset) else v) for k, v in K2.items()}}
     run_model(ctx, wd, "SseWire_single", K1, True)
